@@ -367,6 +367,15 @@ func (s *scen) message() *tbin.Val {
 	return v
 }
 
+// fullMessage: the struct with all three fields present (sample values), no unknown field.
+func (s *scen) fullMessage() *tbin.Val {
+	v := tbin.Struct()
+	for _, f := range s.p.fields {
+		v.Fs = append(v.Fs, tbin.F(f.id, f.sample))
+	}
+	return v
+}
+
 func (s *scen) desc() interface{} {
 	if s.custom != nil {
 		return caseDesc{Side: s.side, IDL: baseMainIDL, Options: s.optName}
